@@ -1,1 +1,247 @@
-/-! # C18 — property theorems (to be filled in) -/
+import JokerVerif.Lemmas.PriorValidateLemmas
+/-!
+# C18 — only priors and data satisfying the sampler's assumptions are accepted
+
+Property theorems only.  All are for every input (any number of parameters, any `poly_trend : Int`, any number
+of offsets / data sources).  `PriorV.WellFormed` (in `Lemmas/PriorValidateLemmas.lean`) is the property's notion
+of an admissible prior: every required parameter present with a unit of the canonical dimension, every linear
+parameter (K, v_i, offsets) Normal.
+-/
+namespace PriorV
+
+/-- `JokerPrior(...)` succeeds **iff** the prior is well-formed — both directions, so dropping or weakening any
+branch of the validation is a counterexample to this theorem's tie -/
+theorem accept_iff_wellformed (i : PriorInput) : (∃ names, validate i = .ok names) ↔ WellFormed i := by
+  constructor
+  · rintro ⟨names, h⟩
+    obtain ⟨hm, hps, p, hp, ho, h1, h2, _⟩ := (validate_ok_iff i names).mp h
+    exact ⟨hm, hps, ho, p, hp, (checkPresence_ok_iff _ _).mp h1, (checkLinear_ok_iff _ _).mp h2⟩
+  · rintro ⟨hm, hps, ho, p, hp, h1, h2⟩
+    exact ⟨parNames p i.offsets.length, (validate_ok_iff i _).mpr
+      ⟨hm, hps, p, hp, ho, (checkPresence_ok_iff _ _).mpr h1, (checkLinear_ok_iff _ _).mpr h2, rfl⟩⟩
+
+/-- what is returned on success is the canonical parameter list of `(poly_trend, #offsets)` -/
+theorem accepted_names (i : PriorInput) (names : List Name) (h : validate i = .ok names) :
+    ∃ p, i.polyTrend = some p ∧ names = parNames p i.offsets.length := by
+  obtain ⟨_, _, p, hp, _, _, _, hn⟩ := (validate_ok_iff i names).mp h
+  exact ⟨p, hp, hn⟩
+
+/-- accepted priors list their parameters as: nonlinear `P, e, omega, M0, s`; then `K, v0 … v_{p-1}`; then the
+offsets `dv0_1 … dv0_q` -/
+theorem par_names_order (i : PriorInput) (names : List Name) (h : validate i = .ok names) :
+    ∃ p, i.polyTrend = some p ∧
+      names = [Name.P, .e, .omega, .M0, .s] ++ (Name.K :: (List.range p.toNat).map Name.v)
+        ++ (List.range i.offsets.length).map (fun j => Name.dv0 (j + 1)) := by
+  obtain ⟨p, hp, hn⟩ := accepted_names i names h
+  exact ⟨p, hp, by rw [hn, parNames_eq]; simp⟩
+
+/-- positional form of the same statement -/
+theorem par_names_positions (i : PriorInput) (names : List Name) (h : validate i = .ok names) :
+    ∃ p : Int, i.polyTrend = some p ∧ names.length = 6 + p.toNat + i.offsets.length ∧
+      names.take 6 = [Name.P, .e, .omega, .M0, .s, .K] ∧
+      (∀ l, l < p.toNat → names[6 + l]? = some (Name.v l)) ∧
+      (∀ j, j < i.offsets.length → names[6 + p.toNat + j]? = some (Name.dv0 (j + 1))) := by
+  obtain ⟨p, hp, hn⟩ := par_names_order i names h
+  refine ⟨p, hp, ?_, ?_, ?_, ?_⟩
+  · subst hn; simp; omega
+  · subst hn; simp
+  · intro l hl
+    subst hn
+    simp only [List.cons_append, List.nil_append]
+    have e : 6 + l = l + 6 := by omega
+    rw [e]
+    simp only [List.getElem?_cons_succ]
+    rw [List.getElem?_append_left (by simpa using hl)]
+    simp [hl]
+  · intro j hj
+    subst hn
+    simp only [List.cons_append, List.nil_append]
+    have e : 6 + p.toNat + j = (p.toNat + j) + 6 := by omega
+    rw [e]
+    simp only [List.getElem?_cons_succ]
+    rw [List.getElem?_append_right (by simp)]
+    simp [hj]
+
+/-- rejections are `ValueError`s in the presence / unit loop -/
+theorem presence_failures_are_value_errors (env : List Param) (req : List (Name × Dim)) (e : Err)
+    (h : checkPresence env req = .error e) : e = .value :=
+  checkPresence_error_value env req e h
+
+/-! ### every way of breaking a prior is rejected (corollaries of `accept_iff_wellformed`) -/
+
+/-- a required parameter that nobody defines -/
+theorem omitted_rejected (i : PriorInput) (p : Int) (hp : i.polyTrend = some p) (n : Name)
+    (hreq : n ∈ parNames p i.offsets.length) (hmiss : ∀ par ∈ envOf i, par.name ≠ n) :
+    ∃ e, validate i = .error e := by
+  cases hv : validate i with
+  | error e => exact ⟨e, rfl⟩
+  | ok names =>
+    exfalso
+    obtain ⟨_, _, _, p', hp', hpres, _⟩ := (accept_iff_wellformed i).mp ⟨names, hv⟩
+    rw [hp] at hp'; cases hp'
+    obtain ⟨nd, hnd, rfl⟩ := List.mem_map.mp hreq
+    obtain ⟨par, hl, _⟩ := hpres nd hnd
+    obtain ⟨hname, hmem⟩ := lookup_name _ _ _ hl
+    exact hmiss par hmem hname
+
+/-- a required parameter whose (effective) entry has no unit, or a unit of the wrong dimension -/
+theorem bad_unit_rejected (i : PriorInput) (p : Int) (hp : i.polyTrend = some p) (n : Name) (d : Dim)
+    (hreq : (n, d) ∈ required p i.offsets.length) (par : Param) (hl : lookup (envOf i) n = some par)
+    (hbad : par.unit ≠ some d) : ∃ e, validate i = .error e := by
+  cases hv : validate i with
+  | error e => exact ⟨e, rfl⟩
+  | ok names =>
+    exfalso
+    obtain ⟨_, _, _, p', hp', hpres, _⟩ := (accept_iff_wellformed i).mp ⟨names, hv⟩
+    rw [hp] at hp'; cases hp'
+    obtain ⟨par', hl', hu'⟩ := hpres (n, d) hreq
+    rw [hl] at hl'; cases hl'
+    exact hbad hu'
+
+/-- a linear parameter (K, v_i, offset) whose prior is not Normal / FixedCompanionMass -/
+theorem non_normal_rejected (i : PriorInput) (p : Int) (hp : i.polyTrend = some p) (n : Name)
+    (hlin : n ∈ linearNames p i.offsets.length) (par : Param) (hl : lookup (envOf i) n = some par)
+    (hk : par.kind ≠ .normal ∧ par.kind ≠ .fcm) : ∃ e, validate i = .error e := by
+  cases hv : validate i with
+  | error e => exact ⟨e, rfl⟩
+  | ok names =>
+    exfalso
+    obtain ⟨_, _, _, p', hp', _, hlinAll⟩ := (accept_iff_wellformed i).mp ⟨names, hv⟩
+    rw [hp] at hp'; cases hp'
+    obtain ⟨par', hl', hk'⟩ := hlinAll n hlin
+    rw [hl] at hl'; cases hl'
+    rcases hk' with h | h
+    · exact hk.1 h
+    · exact hk.2 h
+
+/-- `JokerPrior.default` never accepts what the core validator would refuse: acceptance means the assembled
+prior is well-formed -/
+theorem default_accept_wellformed (d : DefaultInput) (names : List Name) (h : defaultValidate d = .ok names) :
+    ∃ i, assemble d = .ok i ∧ WellFormed i ∧ validate i = .ok names := by
+  unfold defaultValidate at h
+  cases ha : assemble d with
+  | error e => rw [ha] at h; cases h
+  | ok i =>
+    rw [ha] at h
+    exact ⟨i, rfl, (accept_iff_wellformed i).mp ⟨names, h⟩, h⟩
+
+/-! ### data sources -/
+
+/-- the sampler accepts data exactly when: a single `RVData` and no offsets, or `q+1` sources that are all
+plain `RVData` without covariance -/
+theorem data_accept_iff (d : DataInput) (q : Nat) :
+    (∃ n, validateData d q = .ok n) ↔
+      (d = .single ∧ q = 0) ∨ (∃ srcs, d = .multi srcs ∧ (∀ s ∈ srcs, s = Source.rv false) ∧ srcs.length = q + 1) := by
+  cases d with
+  | single =>
+    by_cases hq : q = 0 <;> simp [validateData, hq]
+  | notIterable => simp [validateData]
+  | multi srcs =>
+    simp only [validateData, reduceCtorEq, false_and, DataInput.multi.injEq, exists_eq_left', false_or]
+    cases hc : checkSources srcs with
+    | error e =>
+      have : ¬ ∀ s ∈ srcs, s = Source.rv false := by
+        rw [← checkSources_ok_iff, hc]; intro h; cases h
+      simp [this]
+    | ok u =>
+      cases u
+      have hs := (checkSources_ok_iff srcs).mp hc
+      by_cases hl : srcs.length = q + 1
+      · simp only [hl, if_true, Except.ok.injEq, exists_eq', and_true, true_iff]; exact hs
+      · simp [hl]
+
+/-- number of surveys − 1 ≠ number of offset priors ⇒ error (any sources) -/
+theorem count_mismatch_rejected (srcs : List Source) (q : Nat) (h : srcs.length ≠ q + 1) :
+    ∃ e, validateData (.multi srcs) q = .error e := by
+  cases hv : validateData (.multi srcs) q with
+  | error e => exact ⟨e, rfl⟩
+  | ok n =>
+    exfalso
+    rcases (data_accept_iff _ q).mp ⟨n, hv⟩ with ⟨h1, _⟩ | ⟨s', h1, _, h3⟩
+    · cases h1
+    · cases h1; exact h h3
+
+/-- a single `RVData` together with offset priors ⇒ `ValueError` -/
+theorem single_with_offsets_rejected (q : Nat) (h : q ≠ 0) : validateData .single q = .error .value := by
+  simp [validateData, h]
+
+/-- a non-`RVData` source, or a covariance source, anywhere in a multi-survey input ⇒ error -/
+theorem bad_source_rejected (srcs : List Source) (q : Nat) (s : Source) (hs : s ∈ srcs) (hbad : s ≠ .rv false) :
+    ∃ e, validateData (.multi srcs) q = .error e := by
+  cases hv : validateData (.multi srcs) q with
+  | error e => exact ⟨e, rfl⟩
+  | ok n =>
+    exfalso
+    rcases (data_accept_iff _ q).mp ⟨n, hv⟩ with ⟨h1, _⟩ | ⟨s', h1, h2, _⟩
+    · cases h1
+    · cases h1; exact hbad (h2 s hs)
+
+/-- the class of the error is decided by the first offending source -/
+theorem bad_source_class (pre : List Source) (rest : List Source) (q : Nat)
+    (hpre : ∀ s ∈ pre, s = Source.rv false) :
+    validateData (.multi (pre ++ Source.notRV :: rest)) q = .error .type ∧
+    validateData (.multi (pre ++ Source.rv true :: rest)) q = .error .notimpl := by
+  have h : checkSources (pre ++ Source.notRV :: rest) = .error .type ∧
+      checkSources (pre ++ Source.rv true :: rest) = .error .notimpl := by
+    induction pre with
+    | nil => simp [checkSources]
+    | cons a tl ih =>
+      have ha : a = Source.rv false := hpre a (List.mem_cons_self)
+      subst ha
+      simpa [checkSources] using ih (fun s hs => hpre s (List.mem_cons_of_mem _ hs))
+  simp [validateData, h.1, h.2]
+
+/-- marginalisation is only ever run with a design matrix of the exact shape: data accepted and `poly_trend ≥ 1` -/
+theorem sampler_accepts_iff (p : Int) (q : Nat) (d : DataInput) :
+    samplerAccepts p q d = .ok () ↔ (∃ n, validateData d q = .ok n) ∧ 1 ≤ p := by
+  unfold samplerAccepts
+  cases hv : validateData d q with
+  | error e => simp
+  | ok n => by_cases hp : 1 ≤ p <;> simp [hp]
+
+/-- `TheJoker(...)` refuses anything but a `JokerPrior`, a pool with map/close and a numpy Generator -/
+theorem joker_init_iff (poolOk rngOk priorOk : Bool) :
+    jokerInit poolOk rngOk priorOk = .ok () ↔ poolOk = true ∧ rngOk = true ∧ priorOk = true := by
+  cases poolOk <;> cases rngOk <;> cases priorOk <;> simp [jokerInit]
+
+/-! ### non-vacuity: concrete inputs -/
+
+/-- a valid prior with a quadratic trend and one offset; the offset is given through `v0_offsets`, `K` is first
+defined with a Uniform prior and then redefined (later dict entry wins) as FixedCompanionMass -/
+def exGood : PriorInput :=
+  { modelOk := true, parsStatus := .ok, polyTrend := some 2, offsetsIterable := true,
+    pars := [⟨.K, some (Dim.vel 0), .otherRV⟩, ⟨.P, some Dim.time1, .otherRV⟩, ⟨.e, some Dim.one, .otherRV⟩,
+             ⟨.omega, some Dim.angle1, .unnamedOp⟩, ⟨.M0, some Dim.angle1, .unnamedOp⟩, ⟨.s, some (Dim.vel 0), .noOwner⟩,
+             ⟨.K, some (Dim.vel 0), .fcm⟩, ⟨.v 0, some (Dim.vel 0), .normal⟩, ⟨.v 1, some (Dim.vel 1), .normal⟩],
+    offsets := [⟨.dv0 1, some (Dim.vel 0), .normal⟩] }
+
+example : validate exGood = .ok [.P, .e, .omega, .M0, .s, .K, .v 0, .v 1, .dv0 1] := by decide
+example : WellFormed exGood := (accept_iff_wellformed exGood).mp ⟨[.P, .e, .omega, .M0, .s, .K, .v 0, .v 1, .dv0 1], by decide⟩
+-- one broken branch each
+example : validate { exGood with pars := exGood.pars.filter (fun p => p.name ≠ .e) } = .error .value := by decide
+example : validate { exGood with offsets := [⟨.dv0 2, some (Dim.vel 0), .normal⟩] } = .error .value := by decide
+example : validate { exGood with offsets := [⟨.dv0 1, some (Dim.vel 0), .otherRV⟩] } = .error .value := by decide
+example : validate { exGood with pars := exGood.pars ++ [⟨.v 1, some (Dim.vel 0), .normal⟩] } = .error .value := by decide
+example : validate { exGood with pars := exGood.pars ++ [⟨.v 0, some (Dim.vel 0), .unnamedOp⟩] } = .error .unspecified := by decide
+example : validateData (.multi [.rv false, .rv false]) 1 = .ok 2 := by decide
+example : validateData (.multi [.rv false, .rv false, .rv false]) 1 = .error .value := by decide
+example : validateData (.multi [.rv false, .rv true, .notRV]) 2 = .error .notimpl := by decide
+def exDefault : DefaultInput where
+  modelOk := true
+  pMin := .qty Dim.time1
+  pMax := .qty Dim.time1
+  sigmaK0 := .qty (Dim.vel 0)
+  p0 := .qty Dim.time1
+  s := .missing
+  sigmaV := .list [.qty (Dim.vel 0), .qty (Dim.vel 1)]
+  polyTrend := some 2
+  offsetsIterable := true
+  offsets := []
+  userPars := []
+
+example : defaultValidate exDefault = .ok [.P, .e, .omega, .M0, .s, .K, .v 0, .v 1] := by decide
+example : defaultValidate { exDefault with sigmaV := .scalarQty (Dim.vel 0) } = .error .value := by decide
+example : defaultValidate { exDefault with sigmaV := .list [.qty (Dim.vel 0), .qty (Dim.vel 0)] } = .error .value := by decide
+example : defaultValidate { exDefault with pMin := .qty (Dim.vel 0) } = .error .units := by decide
+
+end PriorV
